@@ -63,9 +63,15 @@ def c15(tier, seed, workdir, repo):
         part["distinct"] = max(part["distinct"], r["n"])
         if len(part["samples"]) < 2:
             part["samples"].append("producer %s -> consumer %s: %d documents" % (v, c, r["n"]))
-        for f in r["failures"][:10]:
+        kept, per_class = [], {}
+        for f in r["failures"]:          # keep a few failures of every input class, so that a known class cannot crowd out a new one
+            k = tuple(f.get("tags", []))
+            per_class[k] = per_class.get(k, 0) + 1
+            if per_class[k] <= 4:
+                kept.append(f)
+        for f in kept:
             part["failures"].append({"check": "portable_json", "unit": "%s written by %s" % (f["id"], v), "msgs": [f["msg"] + " (consumer %s)" % c],
-                                     "recipe": {"producer": v, "consumer": c, "id": f["id"]}, "tags": ["lone-surrogate-string-outside-constants"] if "docsur" in f["id"] or "surrogate" in f["id"] else []})
+                                     "recipe": {"producer": v, "consumer": c, "id": f["id"]}, "tags": f.get("tags", [])})
     return out
 
 
@@ -93,7 +99,7 @@ def c07_schema(tier, seed, workdir, repo):
             errs = list(validator.iter_errors(doc))
             if errs and len(part["failures"]) < 10:
                 e = errs[0]
-                sur = '"string":' in line.replace(" ", "") and "\\\\ud" in line or "{'string'" in str(e.instance)[:40] or (isinstance(e.instance, dict) and set(e.instance) == {"string"})
+                sur = isinstance(e.instance, dict) and set(e.instance) == {"string"} and (not e.absolute_path or "constant" not in [str(x) for x in e.absolute_path])
                 part["failures"].append({"check": "schema_validation", "unit": line[:120], "msgs": ["JSON_SCHEMA violation at %s: %s" % ("/".join(map(str, e.absolute_path)), e.message[:200])],
                                          "recipe": {"doc": doc}, "tags": ["lone-surrogate-string-outside-constants"] if sur else []})
         part["distinct"] = len(seen)
